@@ -43,7 +43,8 @@ Groups ==
 
 FocusFields(ver) ==
   { Chunk(k, n, c, ver) : <<k, n, c>> \in { x \in Kinds \X (BodyLens \cup {23}) \X {"Z", "D", "G", "W"} :
-                                            (x[2] = 23 => x[1] = "draft") /\ x[3] \in Classes(x[1], x[2]) } }
+                                            (x[2] = 23 => x[1] = "draft") /\ x[3] \in Classes(x[1], x[2])
+                                            /\ (x[3] = "G" => ver = 5) } }
   \cup {<<>>}
 
 InGroup(g) ==
@@ -95,7 +96,7 @@ C24_RoundTrip == st.lvl \in {2, 3} => C24_Case(st.d)
 \* C23 on the model: the transcribed decoder is total -- it yields "ok" or an error class for every datagram
 C23_Total == st.lvl \in {2, 3} => LET r == Decode(st.d).res IN
                 r \in {"ok", "err:len", "err:version", "err:placeholder", "err:decrypt", "err:v5mode", "err:v5scale", "err:v5flags",
-                       "err:v5draft", "err:v5draftid"}
+                       "err:v5draft"}
 \* C25 on the model: the expectation per region follows from which bytes are inputs of the AEAD
 C25_Regions == \A r \in Regions : C25_Region(r)
 =============================================================================
